@@ -100,7 +100,7 @@ Qed.
 (* ---------- level 1 of "in body": <br> and <img> ---------- *)
 Lemma ib_cb_level (self : body) :
   (forall s t, TInv s -> late s -> saving_mode (mode s) = false -> scalar_tok t -> is_start t = true ->
-               (tname t = nm "br" \/ tname t = nm "img") -> wp (self t) (step_post t) s) ->
+               (tname t = nm "br" \/ tname t = nm "img") -> wp (self t) tag_post s) ->
   ib_cb step_in_head step_in_template_0 self.
 Proof.
   intro H. split; [|split].
@@ -110,7 +110,7 @@ Proof.
 Qed.
 
 Lemma in_body_1_void s t : TInv s -> late s -> saving_mode (mode s) = false -> scalar_tok t -> is_start t = true ->
-  (tname t = nm "br" \/ tname t = nm "img") -> wp (step_in_body_1 t) (step_post t) s.
+  (tname t = nm "br" \/ tname t = nm "img") -> wp (step_in_body_1 t) tag_post s.
 Proof.
   intros I L NS Sc St Nm.
   assert (E : first_match heads_in_body t = 32).
@@ -120,10 +120,9 @@ Proof.
   eapply (wp_arm_dispatch_at _ _ _ _ 32); [exact E | reflexivity |].
   unfold ib_arm_32.
   assert (C : is_chars t = false) by (destruct t; try discriminate; reflexivity).
-  eapply wp_mono; [apply ib_void_ok; [eapply TInv_core_eq; [apply core_eq_set_out | exact I] | exact L | |]|].
+  apply ib_void_ok; [eapply TInv_core_eq; [apply core_eq_set_out | exact I] | exact L | |].
   - destruct Nm as [-> | ->]; discriminate.
   - destruct Nm as [-> | ->]; discriminate.
-  - intros r s' P. apply tag_post_step; assumption.
 Qed.
 
 (* ---------- the full "in body" and "in template" rules ---------- *)
